@@ -521,6 +521,9 @@ package task
 //@   site (*Executor).setupFuzzyModel#0 requires arg0 == e                                                             [C18,C15]
 //@ func (*Executor).GetTask
 //@   nosite (*Executor).setupFuzzyModel                                                                                [C18]
+// .MATCH holds exactly the matched substrings: they are marked as final values (data, never a template), so a
+// requested name that contains template syntax is not expanded when the variables of the task are resolved
+//@   site (*Vars).Set#0 requires arg1 == "MATCH" && arg2.Value == box(type([]string), matchingTasks[0].Wildcards) && arg2.Live == arg2.Value   [C15]
 //@   init consulted := false
 //@   init matchedAny := false
 //@   init firstMatch := nil
